@@ -222,3 +222,12 @@ def _(u):
     from .envlib import depot_tour_reward_rowlocal
 
     depot_tour_reward_rowlocal(u, F, "CVRPEnv._get_reward", "CVRPEnv")
+
+
+@unit("cvrp.reward.padding", file=F, func="CVRPEnv._get_reward", props=("C04", "C03"),
+      note="finished rows are padded with depot actions while batch-mates run: the reward must not change")
+def _(u):
+    from .envlib import reward_pad_invariant
+
+    N = u.dim("N")
+    reward_pad_invariant(u, F, "CVRPEnv._get_reward", "CVRPEnv", lambda u, B: u.td(B, locs=((B, N + 1, 2), "f")), N + 1)
